@@ -170,6 +170,34 @@ def d4(ck: Check) -> None:
                     okf = keyset(c_.func.value) and dsset(c_.args[0])
                 elif c_.func.attr == "issuperset":
                     okf = dsset(c_.func.value) and text(fm.deref(c_.func.value, at)) != DS and (keyset(c_.args[0]) or text(c_.args[0]) == dv)
+        if not okf and isinstance(g, (ast.GeneratorExp, ast.ListComp)) and len(g.generators) == 1 and not g.generators[0].ifs \
+                and isinstance(g.generators[0].iter, ast.Name) and text(g.generators[0].iter) != res:
+            # the key sets of the reported driver sets kept in a list of their own: filled with the key set of the set under test
+            # wherever (and only where) a driver set is reported
+            K = g.generators[0].iter.id
+            kv = text(g.generators[0].target)
+            at = fm.cfgn(f.parents[sk[0]])
+
+            def dsset2(e):
+                e = fm.deref(e, at)
+                return text(e) in (f"set({DS})", f"frozenset({DS})", DS)
+            c_ = g.elt
+            shape = isinstance(c_, ast.Compare) and len(c_.ops) == 1 and (
+                (isinstance(c_.ops[0], ast.LtE) and text(c_.left) == kv and dsset2(c_.comparators[0])) or
+                (isinstance(c_.ops[0], ast.GtE) and text(c_.comparators[0]) == kv and dsset2(c_.left)))
+            kapps = [c2 for c2 in own_walk(f.node) if isinstance(c2, ast.Call) and isinstance(c2.func, ast.Attribute) and c2.func.attr == "append"
+                     and text(c2.func.value) == K]
+            rapps = [c2 for c2 in own_walk(f.node) if isinstance(c2, ast.Call) and isinstance(c2.func, ast.Attribute) and c2.func.attr == "append"
+                     and text(c2.func.value) == res]
+            def sibling(a_, bs):
+                pa = f.parents.get(f.stmt_of(a_))
+                return any(f.parents.get(f.stmt_of(b_)) is pa and
+                           any(f.stmt_of(a_) in getattr(pa, fld, []) and f.stmt_of(b_) in getattr(pa, fld, []) for fld in ("body", "orelse"))
+                           for b_ in bs)
+            others = [y for y in own_walk(f.node) if isinstance(y, ast.Name) and y.id == K and isinstance(y.ctx, ast.Store)]
+            okf = shape and bool(kapps) and len(others) == 1 \
+                and all(text(fm.deref(c2.args[0], fm.cfgn(c2))) in (f"set({DS})", f"frozenset({DS})") for c2 in kapps) \
+                and all(sibling(r_, kapps) for r_ in rapps) and all(sibling(k_, rapps) for k_ in kapps)
         if not okf:
             probs.append(f"a driver set is skipped when `{text(t)}`; expected: when some reported driver set is a subset of it")
     ck.ob("D4", fm, sk[0] if sk else f.node, not probs, "; ".join(probs) if probs else
@@ -410,6 +438,41 @@ def d6(ck: Check) -> None:
                                 t_, tneg_ = _polar(f.parents[n_].test)
                                 if neg_ != tneg_ and text(logic._rename(c_, tv_, lps_[0].target.id)) == text(t_):
                                     listed = a_
+        if listed is None:
+            # ... or as a quantifier over all nodes: any(<node does not reach a forbidden node>), the negation of the test
+            # that the node loop skips on
+            def meet(e):
+                pol = True
+                while True:
+                    if isinstance(e, ast.UnaryOp) and isinstance(e.op, ast.Not):
+                        e, pol = e.operand, not pol
+                    elif isinstance(e, ast.Call) and callee_name(e) == "bool" and len(e.args) == 1:
+                        e = e.args[0]
+                    elif isinstance(e, ast.Compare) and len(e.ops) == 1 and isinstance(e.ops[0], (ast.Gt, ast.NotEq)) and text(e.comparators[0]) == "0" \
+                            and isinstance(e.left, ast.Call) and callee_name(e.left) == "len" and e.left.args:
+                        e = e.left.args[0]
+                    else:
+                        break
+                if isinstance(e, ast.BinOp) and isinstance(e.op, ast.BitAnd):
+                    return frozenset({text(e.left), text(e.right)}), pol
+                if isinstance(e, ast.Call) and callee_name(e) == "isdisjoint" and len(e.args) == 1 and isinstance(e.func, ast.Attribute):
+                    return frozenset({text(e.func.value), text(e.args[0])}), not pol
+                return None, pol
+            tst = f.parents.get(es[0])
+            for q_ in (ast.walk(tst.test) if isinstance(tst, ast.If) else []):
+                qq = logic.quantifier(q_)
+                if qq is None or not qq[0] or not isinstance(qq[2], str) or not text(qq[1]).endswith(".node_ids()"):
+                    continue
+                m1, p1 = meet(qq[3])
+                for n_ in own_walk(f.node):
+                    if isinstance(n_, ast.Continue) and isinstance(f.parents.get(n_), ast.If) and n_ in f.parents[n_].body:
+                        lps_ = fm.cfg.enclosing_loops(fm.cfgn(n_))
+                        if lps_ and isinstance(lps_[0], ast.For) and isinstance(lps_[0].target, ast.Name) and text(lps_[0].iter) == text(qq[1]):
+                            m2, p2 = meet(logic._rename(f.parents[n_].test, lps_[0].target.id, qq[2]))
+                            if m1 is not None and m1 == m2 and p1 != p2:
+                                anys = [a_ for a_ in logic.atoms(pc) if a_[0] == "b" and a_[1].startswith("any:")]
+                                if len(anys) == 1:
+                                    listed = anys[0]
         if listed is not None:
             want = logic.And(("atom", listed) if listed[0] == "b" else logic.Lt("0", listed[2]), logic.Not(logic.Lt("0", "len(successions)")))
         if not logic.equivalent(pc, want):
